@@ -556,8 +556,42 @@ def evaluate(world, P, s, exe, fp):
     return o
 
 
+def volatile_dependents(world):
+    """Cells that depend, directly or transitively, on a cell or name with a
+    volatile site (those cells excluded)."""
+    from ..expr import rect_cells
+    idx = Index(world)
+    src = {i for i, c in enumerate(world['cells'])
+           if 'f' in c and sites(c['f'])}
+    deps = {}
+    uses_vn = set()
+    for i, c in enumerate(world['cells']):
+        d = set()
+        if 'f' in c:
+            for x in walk(c['f']):
+                if x[0] == 'vn':
+                    uses_vn.add(i)
+                elif x[0] in ('r', 'nm'):
+                    r = x if x[0] == 'r' else world['names'][x[1]]['t']
+                    for p in rect_cells(r):
+                        o = idx.occupant(p)
+                        if o is not None:
+                            d.add(o)
+        deps[i] = d
+    out = set(uses_vn)
+    changed = True
+    while changed:
+        changed = False
+        for i, d in deps.items():
+            if i not in out and i not in src and d & (out | src):
+                out.add(i)
+                changed = True
+    return out - src
+
+
 def judge(world, exe, obs, reads, fp, fail, stats, j):
     normal = obs.normal(names=False)
+    vdeps = volatile_dependents(world)
     only = getattr(obs, 'formula_only', None)
     serial_now = [excel_serial(t) for t in reads]
     serial_today = [excel_serial(t, False) for t in reads]
@@ -570,7 +604,9 @@ def judge(world, exe, obs, reads, fp, fail, stats, j):
             continue
         cs, rs = clock_sites(c['f']), rand_sites(c['f'])
         if not cs and not rs:
-            if only is None:
+            # C13.snapshot speaks about DEPENDENTS of volatile cells; what a
+            # compiled function returns for other cells is C08's business
+            if only is None and i in vdeps:
                 # C13.snapshot: dependents equal h(observed inputs)
                 st, exp = fp.expected(i, obs)
                 if st == 'ok':
